@@ -424,8 +424,17 @@ def _desc_huge(rng, ctx, res):
     unit = 2048  # sectors
     layer = Layer(nsec * SECTOR, unit, rng.getrandbits(48), 0, default=T)
     hot_units = {0, nsec // unit - 1, (nsec // unit) // 2, (10**10 - 1) // unit} | {rng.randrange(nsec // unit) for _ in range(3)}
-    with open(os.path.join(d, "huge-flat.vmdk"), "wb") as f:
-        f.truncate(nsec * SECTOR)
+    try:
+        with open(os.path.join(d, "huge-flat.vmdk"), "wb") as f:
+            f.truncate(nsec * SECTOR)
+    except OSError as e:
+        # the file system under the temporary directory cannot hold a sparse file of this size: nothing to observe here
+        cnt["huge_sparse_file_not_supported_here"] = 1
+        res["nontrivial"] = False
+        res["sig"] = ("desc-huge-skipped", nsec)
+        res["sample"] = {"skipped": f"{type(e).__name__}: {e}"}
+        return res
+    with open(os.path.join(d, "huge-flat.vmdk"), "r+b") as f:
         for u in sorted(hot_units):
             layer.units[u] = D
             f.seek(u * unit * SECTOR)
